@@ -19,10 +19,29 @@ type monC07 struct {
 	seen map[string]int    // pid -> number of KB cookies already folded in
 	// askedO2[b]: did the browser's LATEST OAuth2 start request ask to be remembered?
 	askedO2 map[int]bool
+	// how each browser's session got its user ("half" after a cookie re-authentication, "full"
+	// only after a completed login as that user): C13's model, the session's own mark is not trusted
+	lvl monC13
 }
 
 func (c *monC07) Init(m *Machine) {
 	c.live, c.seen, c.askedO2 = map[string]string{}, map[string]int{}, map[int]bool{}
+}
+
+// halfMarkKept: a session that owes its user to a remember cookie keeps the half-auth mark until a
+// login as that user completes (or the session ends).
+func (c *monC07) halfMarkKept(m *Machine, s *Step) *Violation {
+	c.lvl.trackLevel(m, s)
+	if s.Resp == nil {
+		return nil
+	}
+	b := s.Op.B % len(m.W.Jars)
+	r := s.Resp
+	uid := r.UID()
+	if uid != "" && len(c.lvl.level) > b && c.lvl.level[b] == "half" && c.lvl.who[b] == uid && r.SessAfter[authboss.SessionHalfAuthKey] != "true" {
+		return violation("C07", "half-auth-mark-lost:"+s.Op.K, "%s request: the session of %q goes back to a remember cookie and no login as that user completed since, yet the half-auth mark is gone (session %v)", s.Op.K, uid, r.SessAfter)
+	}
+	return nil
 }
 
 func cookieKey(c string) (string, bool) {
@@ -53,6 +72,9 @@ func pidClass(pid string) string {
 var passiveOps = map[string]bool{"visit": true, "get": true, "set": true}
 
 func (c *monC07) After(m *Machine, s *Step) *Violation {
+	if v := c.halfMarkKept(m, s); v != nil {
+		return v
+	}
 	op := s.Op
 	if op.K == "updpw" {
 		if ka := m.KB.acct(op.A % max(1, len(m.KB.Accts))); ka != nil {
@@ -194,7 +216,8 @@ func (c *monC07) After(m *Machine, s *Step) *Violation {
 	if op.K == "logout" && (op.S == "" || op.S == m.W.AB.Config.Modules.LogoutMethod) && hasC {
 		return violation("C07", "logout-kept-cookie", "logout left the remember cookie on the client")
 	}
-	if (op.K == "login" || op.K == "otplogin") && after == s.Pid && after != "" && r.SessAfter[authboss.SessionHalfAuthKey] != "" && credOK(m, s) {
+	loginReported := r.Rec.HandlerErr == nil && (strings.HasPrefix(r.Location, "/ok/login") || (op.S2 != "" && r.Location == op.S2))
+	if (op.K == "login" || op.K == "otplogin") && after == s.Pid && after != "" && r.SessAfter[authboss.SessionHalfAuthKey] != "" && credOK(m, s) && loginReported {
 		return violation("C07", "full-login-kept-halfauth", "a full login of %q left the half-auth mark in the session", after)
 	}
 	return nil
@@ -215,16 +238,22 @@ var kindsC07 = []wk{
 var hostilePIDs = []string{"a;b@x.io", "semi;;colon@x.io", ";lead@x.io", "trail@x.io;", "oauth2;x@x.io", "plain@x.io", "unié@x.io", "x@y.io"}
 
 var profC07 = profile{
-	must: []string{"auth", "remember", "logout"}, may: []string{"recover", "oauth2", "otp"},
+	must: []string{"auth", "remember", "logout"}, may: []string{"recover", "oauth2", "otp", "lock", "confirm"},
 	kinds: kindsC07, minOps: 14, maxOps: 36, accts: [2]int{2, 4}, browsers: [2]int{2, 3}, middlewares: []string{"remember"},
 	tweak: func(t *rapid.T, c *harness.Config) {
 		c.Setups = nil
 		c.Username = false
 		c.RecoverLogin = chance(t, "reclogin7", 50)
+		c.LockAfter = 100000 // lock is loaded for its vetoes and hooks; only accounts seeded as locked are locked
 		pids := perm(t, "pidperm", hostilePIDs)
 		for i := range c.Accounts {
 			a := &c.Accounts[i]
-			a.Locked, a.Unconfirmed, a.TOTP, a.Phone, a.Recovery = false, false, false, "", 0
+			// the last account may be one whose logins are vetoed (locked / unconfirmed): vetoes answer the
+			// request themselves, which is its own path through every login handler
+			if i == 0 || i < len(c.Accounts)-1 {
+				a.Locked, a.Unconfirmed = false, false
+			}
+			a.TOTP, a.Phone, a.Recovery = false, "", 0
 			a.PID = pids[i%len(pids)]
 			a.Email = "mail" + string(rune('a'+i)) + "@x.io"
 			if !c.JSON && chance(t, "binarypid", 10) {
